@@ -29,11 +29,18 @@ type c19rcScenario struct {
 	ReconnectMs   int  `json:"reconnect_ms"`  // --cluster.reconnect-interval
 	FromSnapshot  bool `json:"from_snapshot"` // the restarted instance starts from the snapshot it had (else empty)
 	SeedStaysDown bool `json:"seed_stays_down"`
+	// WaitCleanup (thorough tier only, one case in four): the restart happens 5 min 5 s after the survivor declared the
+	// instance dead, i.e. after one run of the survivor's five-minute clean-up of its list of failed peers, which
+	// must only forget peers that have been gone for longer than the reconnect timeout
+	WaitCleanup bool `json:"wait_cleanup,omitempty"`
 }
 
 func genC19Reconnect(t *rapid.T) c19rcScenario {
-	return c19rcScenario{Before: rapid.IntRange(0, 2).Draw(t, "before"), Alone: rapid.IntRange(1, 3).Draw(t, "alone"), NeverGiveUp: rapid.Bool().Draw(t, "neverGiveUp"),
+	wait := pbt.Thorough() && rapid.IntRange(0, 3).Draw(t, "waitCleanup") == 0
+	sc := c19rcScenario{Before: rapid.IntRange(0, 2).Draw(t, "before"), Alone: rapid.IntRange(1, 3).Draw(t, "alone"), NeverGiveUp: rapid.Bool().Draw(t, "neverGiveUp"),
 		ReconnectMs: rapid.SampledFrom([]int{200, 500, 1000}).Draw(t, "reconnect"), FromSnapshot: rapid.Bool().Draw(t, "fromSnapshot"), SeedStaysDown: true}
+	sc.WaitCleanup = wait
+	return sc
 }
 
 // c19rcRun: "ok", "env: …" or "miss: …"
@@ -132,6 +139,9 @@ func c19rcRun(sc c19rcScenario, deadline time.Duration) string {
 	for i := 0; i < sc.Alone; i++ {
 		author("alone")
 	}
+	if sc.WaitCleanup {
+		time.Sleep(5*time.Minute + 5*time.Second)
+	}
 	// the restart: same address, new name, its only configured peer is down
 	var b2 *c19Node
 	if !waitFor(10*time.Second, func() bool {
@@ -182,7 +192,7 @@ func execC19Reconnect(sc c19rcScenario) (res pbt.Result) {
 func TestC19Reconnect(t *testing.T) {
 	pbt.Run(t, pbt.Spec[c19rcScenario]{
 		Property: "C19", Name: "C19Reconnect",
-		Rule: "real cluster.Peer instances on loopback (periodic push/pull off): a seed, a survivor A (reconnect interval 200-1000 ms, reconnect timeout 0 = never give up, or the default 6 h) and B, both configured with the seed only; A authors 0-2 silences; the seed and B are hard-crashed; after A has declared both dead it authors 1-3 more; B restarts on its old address under a new name, empty or from its snapshot, its own join (to the dead seed) fails. Within 20 s (retried once with 40 s) the restarted instance holds all of A's silences: A's reconnect loop dials the failed peer's address and the join hands over the full state. Environment problems (membership not converging, address not free) make the case inconclusive. Non-trivial: the restarted instance obtained the state.",
+		Rule: "real cluster.Peer instances on loopback (periodic push/pull off): a seed, a survivor A (reconnect interval 200-1000 ms, reconnect timeout 0 = never give up, or the default 6 h) and B, both configured with the seed only; A authors 0-2 silences; the seed and B are hard-crashed; after A has declared both dead it authors 1-3 more; B restarts on its old address under a new name, empty or from its snapshot, its own join (to the dead seed) fails (thorough tier: in one case in four the restart comes 5 min 5 s later, after one run of the survivor's clean-up of failed peers, which must not forget a peer whose reconnect timeout has not passed). Within 20 s (retried once with 40 s) the restarted instance holds all of A's silences: A's reconnect loop dials the failed peer's address and the join hands over the full state. Environment problems (membership not converging, address not free) make the case inconclusive. Non-trivial: the restarted instance obtained the state.",
 		Gen:  genC19Reconnect, Exec: execC19Reconnect,
 	})
 }
